@@ -195,7 +195,7 @@ fn gen_txn(r: &mut Rng, fe: Frontend, fault_pct: u64) -> Txn {
         }
     }
     if r.chance(fault_pct, 100) {
-        t.fault = Some(Fault { pos: r.below(12) as u16 });
+        t.fault = Some(Fault { pos: r.below(12) as u16, extra: if r.chance(1, 4) { r.range(1, 12) as u16 } else { 0 } });
     }
     t
 }
@@ -224,7 +224,7 @@ fn systematic(run: u64) -> Option<MacCase> {
     cfg.fcnt_up0 = start;
     cfg.key_seed = 1000 + run;
     cfg.dev_seed = 2000 + run;
-    let mut t = Txn { fault: Some(Fault { pos: pos as u16 }), ..Txn::default() };
+    let mut t = Txn { fault: Some(Fault { pos: pos as u16, extra: 0 }), ..Txn::default() };
     let ok = || FrameSpec::Data(DataSpec { body: Body::Data { port: 5, len: 2 }, ..DataSpec::plain(1) });
     let bad = || FrameSpec::Data(DataSpec { tamper: Tamper::ZeroMic, ..DataSpec::plain(1) });
     match shape {
@@ -319,7 +319,7 @@ impl C06 {
             for i in 0..len {
                 let mut t = Txn::default();
                 if r.chance(1, 60) {
-                    t.fault = Some(Fault { pos: r.below(10) as u16 });
+                    t.fault = Some(Fault { pos: r.below(10) as u16, extra: if r.chance(1, 4) { r.range(1, 12) as u16 } else { 0 } });
                 }
                 ops.push(Op::Send { port: 1, len: (i % 5) as u8, confirmed: false, txn: t });
             }
@@ -339,7 +339,7 @@ impl C06 {
                 0 if fe == Frontend::AsyncC => {
                     let k = r.range(1, 3);
                     let frames = (0..k).map(|_| if r.chance(3, 4) { frame_ok(&mut r) } else { frame_rejected(&mut r) }).collect();
-                    ops.push(Op::Listen { frames, fault: if r.chance(1, 5) { Some(Fault { pos: r.below(3) as u16 }) } else { None } });
+                    ops.push(Op::Listen { frames, fault: if r.chance(1, 5) { Some(Fault { pos: r.below(3) as u16, extra: if r.chance(1, 4) { r.range(1, 3) as u16 } else { 0 } }) } else { None } });
                 }
                 1 if cfg.otaa => {
                     let mut t = gen_txn(&mut r, fe, fault_pct / 2);
